@@ -152,14 +152,16 @@ def _run_entry(det, pipe, ro, entry):
 
         Exposure(readout=ro).run_exposure(processor=Processor(detector=det, pipeline=pipe), debug=False,
                                           with_inherited_coords=True)
-    elif entry == "exposure_mode":
+    elif entry == "deprecated_loop":
+        # the loop behind the deprecated pyxel.exposure_mode (its own copy of set_readout / empty / clock stores)
         import warnings
 
-        from pyxel.exposure import Exposure
+        from pyxel.exposure.exposure import _run_exposure_pipeline_deprecated
+        from pyxel.pipelines import Processor
 
         with warnings.catch_warnings():
             warnings.simplefilter("ignore")
-            pyxel.exposure_mode(exposure=Exposure(readout=ro), detector=det, pipeline=pipe)
+            _run_exposure_pipeline_deprecated(processor=Processor(detector=det, pipeline=pipe), readout=ro)
     else:
         raise RuntimeError(f"unknown entry {entry}")
 
